@@ -4,8 +4,8 @@ open PwVerif PwVerif.Storage PwVerif.Proto
 
 /-- the variants are run side by side on the same op stream; every op prints one line per
 variant (`I …` = inPlace/pinned, `A …` = atomicReplace with the delete that ignores leftovers (before `1e4658d`),
-`S …` = atomicReplace with the delete that sweeps leftovers = the tree as it is, `C …` = S + the clean-up of a
-nested store climbs to the directories it emptied (proposed repair)) -/
+`S …` = atomicReplace with the delete that sweeps leftovers (before `d82d12e`), `C …` = S + the clean-up of a
+nested store climbs to the directories it emptied = the tree as it is) -/
 structure St where
   wi : TWorld
   wa : TWorld
@@ -119,8 +119,8 @@ def obs (tag : String) (tc : TCfg) (w : TWorld) (op : TOp) : TWorld × String :=
 def both (s : St) (op : TOp) : St × List String :=
   let (wi, li) := obs "I" ⟨Cfg.pinned, false⟩ s.wi op
   let (wa, la) := obs "A" ⟨Cfg.unswept, false⟩ s.wa op
-  let (ws, ls) := obs "S" TCfg.current s.ws op
-  let (wc, lc) := obs "C" TCfg.climbing s.wc op
+  let (ws, ls) := obs "S" TCfg.unclimbed s.ws op
+  let (wc, lc) := obs "C" TCfg.current s.wc op
   (⟨wi, wa, ws, wc⟩, [li, la, ls, lc])
 
 def parseStore : String → Option Store
